@@ -39,7 +39,13 @@ func (c *ConstantOfShape) Init(n *onnx.NodeProto) error {
 				return err
 			}
 
-			c.value = tensor.New(tensor.WithBacking(t.Data()))
+			// A rank-0 tensor holds its single value as a scalar, not as a slice.
+			if t.IsScalar() {
+				c.value = tensor.New(tensor.FromScalar(t.ScalarValue()))
+			} else {
+				c.value = tensor.New(tensor.WithBacking(t.Data()))
+			}
+
 			if c.value.Len() != 1 {
 				return ops.ErrInvalidTensor("expected tensor to have one element", c)
 			}
